@@ -6,6 +6,11 @@ ALL = ["C%02d" % i for i in range(1, 21)]
 
 # property -> dict(level, text, note, technique, engine, design_ref)
 CLAIMED = {
+  "C12": dict(level="exploration", engine="E1",
+    text="Bounded-exhaustive exploration: every one-perturbation neighbour of every base rule document of a cross product of valid parts (rule with 1-2 variables or an ellipsis, utils used directly and under all/any/not/inside/has incl. chains and nthChild.ofRule, constraints incl. one binding a further variable, 0-3 chained transforms, 0-2 (nested) rewriters, fix in string form and three object forms) is loaded through from_yaml_string (quick 6 400 bases / 395 812 distinct perturbed documents, thorough 33 712 / 1 962 609): a document the reference analysis ref_vars calls inconsistent (undefined variable in fix / transform source / constraints key, unresolved matches or rewriter id, transform cycle, same-node utility cycle through matches/all/any/not/nthChild.ofRule, no kind-bearing atom) must be rejected; and every base document is run on a matching source, its fix text (string and object form) and message compared with a reference template expansion over the match environment.",
+    note="Only-if direction only (documents ref_vars still considers valid are loaded but not judged); all subject calls run in restartable child processes so a stack overflow is attributed to the case in flight; JavaScript only; cycles through relational operators are not generated (they move to another node; crash-freedom there is C11's subject).",
+    technique="bounded-exhaustive enumeration of a rule-document space and its complete distance-one perturbation neighbourhood against a reference consistency analysis and a reference template expander",
+    design_ref="DESIGN.md §3 C12"),
   "C09": dict(level="model_checking", engine="E3",
     text="Model checking of the real language server: (1) explicit-state BFS over canonical document-map states {doc -> (version, text)} for every open/change/close over 2 documents x versions {1,2,3} in any order (stale versions included) x 3 texts, each transition replayed on the real tower-lsp LspService<Backend> with handlers run to completion (100 states, 1 440 judged transitions + 2 360 crash probes for protocol-violating operations); (2) engine E3: for every protocol-valid history of <= 4 (thorough 5) notifications over a 7-operation alphabet, every environment schedule (Deliver next notification / client reads one server message / client answers the oldest server request, <= 4 handlers in flight in a real FuturesUnordered with the real bounded client channel) with <= 2 (thorough 3) deviations from drain-immediately/answer-promptly/deliver-when-idle (quick 8 843, thorough 283 571 schedules), executed in child processes under a watchdog so that a handler blocking the thread is reported as a hang. Oracle: at quiescence the last publishDiagnostics of every open document carries the highest received version and that text's findings. Part A (same findings across CLI output styles, --stdin, sg test and LSP) is merged into the same evidence by pychecks/c09_cli.py when present.",
     note="The executor replaces real socket timing by explicit Deliver/Drain/Answer steps and reproduces Server::serve's structure, it is not Server::serve itself; states with equal reference document maps are merged; equal-version changes, re-open without close and change-before-open are only probed for crashes.",
